@@ -95,6 +95,10 @@ def producers(env):
         P.append(dict(text='ow%s' % 'abcdefgh'[i], code=c, kind='one-item-list'))
         P.append(dict(text='oc%s' % 'abcdefgh'[i], code=c, kind='one-cell-fresh'))
         P.append(dict(text='od%s' % 'abcdefgh'[i], code=c, kind='nested3-fresh'))
+    for i, c in enumerate(CODES8):
+        # a host function answering with a row as a database driver hands it over: a one-item tuple (of a one-item tuple) holding the error
+        P.append(dict(text='FRETT(%d)' % i, code=c, kind='custom-returns-tuple'))
+        P.append(dict(text='FRETTT(%d)' % i, code=c, kind='custom-returns-tuple'))
     P.append(dict(text='CHOOSE(2,1,INDEX(xerrs,7))', code='#N/A', kind='picked-from-host-list'))
     P.append(dict(text='IF(TRUE,INDEX(xerrs,7),1)', code='#N/A', kind='picked-from-host-list'))
     P.append(dict(text='IFERROR(1/0,INDEX(xerrs,7))', code='#N/A', kind='picked-from-host-list'))
@@ -102,7 +106,7 @@ def producers(env):
     return P
 
 
-NPRODUCERS = 131
+NPRODUCERS = 147
 
 
 LITERALS = ['#NULL!', '#DIV/0!', '#VALUE!', '#REF!', '#NAME?', '#NUM!', '#N/A', '#ERROR!', '#GETTING_DATA']
@@ -122,6 +126,11 @@ def bind(env):
 
     def fretf(i):
         return env.err.XLError(CODES8[int(i)])
+    def frett(i):
+        return (errs[int(i)],)
+
+    def frettt(i):
+        return ((env.err.XLError(CODES8[int(i)]),),)
     vars = dict(('ev%s' % 'abcdefgh'[i], errs[i]) for i in range(8))
     vars['vok'] = 5
     vars['vblank'] = None
@@ -140,7 +149,7 @@ def bind(env):
     vars['xgrid'] = [[1, 2], [env.err.XLError('#N/A'), 4]]
     for i in range(8):
         cells['var:lv%s' % 'abcdefgh'[i]] = env.err.XLError(CODES8[i])
-    return vars, {'FRAISE': fraise, 'FRET': fret, 'FRAISEF': fraisef, 'FRETF': fretf}, cells
+    return vars, {'FRAISE': fraise, 'FRET': fret, 'FRAISEF': fraisef, 'FRETF': fretf, 'FRETT': frett, 'FRETTT': frettt}, cells
 
 
 OTHERS = ['"abc"', '""', '"5"', 'TRUE', 'vblank', '0.5', '{1,2}', '"2020-01-31"', 'SUM(1,2)', '("a"&"b")', 'vtext', 'vempty']
